@@ -16,6 +16,9 @@ var noInitPrefixes = []string{
 
 func skipInit(p *ssa.Package) bool {
 	path := p.Pkg.Path()
+	if path == "crypto" {
+		return false // hash registry tables only
+	}
 	for _, pre := range noInitPrefixes {
 		if path == strings.TrimSuffix(pre, "/") || strings.HasPrefix(path, pre) {
 			return true
